@@ -300,3 +300,9 @@ def pattern(prefix) -> List[str]:
         if not out or out[-1] != a:
             out.append(a)
     return out
+
+
+def replay_case(prop, case, tmp):
+    row = _run((1, {k: case[k] for k in ("budget", "nv", "transpile", "events")}))
+    res = C.run_tlc_sharded("Qubits", [row], tmp, shards=1, cfg="Qubits.cfg")
+    return res.verdicts[0][1] if res.verdicts else None
